@@ -602,6 +602,40 @@ def _copy_depth(e: ast.AST, state_names: Set[str]) -> Optional[Tuple[str, str]]:
     return None
 
 
+def _unreplaced_writes(per_fn, var: str):
+    """Writes `var[i] = x` (in any matcher function) that are not preceded, in the same handler, by a rebinding of
+    `var` to a copy of itself.  None when no writer rebinding exists at all (the code is not copy-on-write)."""
+    out = []
+    any_cow = False
+    for f, nested, flat, snaps, _i in per_fn:
+        for w in f.own_nodes():
+            if not (isinstance(w, ast.Assign) and any(isinstance(t, ast.Subscript) and isinstance(t.value, ast.Name) and t.value.id == var for t in w.targets)):
+                continue
+            replaced = False
+            child = w
+            par = getattr(w, "_parent", None)
+            while par is not None and par is not f.node:
+                for field in ("body", "orelse"):
+                    blk = getattr(par, field, None)
+                    if isinstance(blk, list) and any(child is q for q in blk):
+                        for q in blk:
+                            if q is child:
+                                break
+                            if isinstance(q, ast.Assign) and len(q.targets) == 1 and isinstance(q.targets[0], ast.Name) and q.targets[0].id == var:
+                                d = _copy_depth(q.value, {var})
+                                if d is not None and d[1] in ("SHALLOW", "DEEP"):
+                                    replaced = True
+                if isinstance(par, ast.If) and any(isinstance(x, ast.Name) and x.id in ("opcode", "op") for x in ast.walk(par.test)):
+                    break
+                child = par
+                par = getattr(par, "_parent", None)
+            if replaced:
+                any_cow = True
+            else:
+                out.append((f, w))
+    return out if any_cow else None
+
+
 def rule_snapshot_ownership(ctx, rep, rid: str) -> None:
     """Backtracking restores a snapshot taken at a choice point.  That only undoes later capture writes when the
     snapshot does not share mutable slots with the live state: either snapshots copy every slot, or every write
@@ -712,6 +746,15 @@ def rule_snapshot_ownership(ctx, rep, rid: str) -> None:
         bad = None
         for n, var, depth, what in snaps:
             if depth == "ALIAS":
+                # copy-on-write: sharing the list is sound when every writer replaces the list before it writes
+                # (and no slot is mutated in place)
+                cow = _unreplaced_writes(per_fn, var)
+                if cow is not None and not cow and not inplace_f:
+                    continue
+                if cow:
+                    g, w = cow[0]
+                    bad = (n, f"the {what} keeps the live `{var}` list by reference (copy-on-write), but {g.qual} writes `{norm(w)[:40]}` (line {w.lineno}) without replacing the list first, while the other writers do: that write also changes the snapshots saved at earlier choice points, so captures of an abandoned alternative survive backtracking (or are wiped for the one that is taken)")
+                    break
                 bad = (n, f"the {what} stores the live `{var}` list itself: later writes change the snapshot too, so backtracking restores nothing")
                 break
             if depth == "SHALLOW" and var in nested and inplace_f:
